@@ -113,11 +113,13 @@ def rule_coll(c, prog):
     rows = decision.table(tb.paths(fn.body))
     got = {}
     for k, v in rows.items():
-        effs = sorted({tuple(e for e in ef if e != "·") for ef, ex in v})
+        # the order of independent effects on one path is not part of the rule (the fresh id is bound by a let,
+        # so `generate` necessarily precedes its two uses): compare effect multisets
+        effs = sorted({tuple(sorted(e for e in ef if e != "·")) for ef, ex in v})
         got[frozenset(k)] = effs
     want = {
-        frozenset({("HAS", True), ("DUP", True)}): [("instances.insert", "generate", "record(new)", "props[UniqueId] := new")],
-        frozenset({("HAS", True), ("DUP", False)}): [("instances.insert", "record(own)")],
+        frozenset({("HAS", True), ("DUP", True)}): [tuple(sorted(("instances.insert", "generate", "record(new)", "props[UniqueId] := new")))],
+        frozenset({("HAS", True), ("DUP", False)}): [tuple(sorted(("instances.insert", "record(own)")))],
         frozenset({("HAS", False)}): [("instances.insert",)],
     }
     c.sample({"rule": R, "inner_insert_table": {" & ".join(sorted(("" if v else "!") + a for a, v in k)): [list(e) for e in v] for k, v in got.items()}})
